@@ -243,9 +243,9 @@ pub fn list_fval(push_state: &mut PushState, _instruction_cache: &InstructionCac
 /// two integer and a boolean item.
 pub fn list_set(push_state: &mut PushState, _instruction_cache: &InstructionCache) {
     if let Some(index) = push_state.int_stack.pop() {
-        let size = push_state.code_stack.size() as i32;
-        let list_index = i32::max(i32::min(size - 1, index), 0) as usize;
         if let Some(items) = load_items(push_state) {
+            let size = push_state.code_stack.size() as i32;
+            let list_index = i32::max(i32::min(size - 1, index), 0) as usize;
             // items.reverse();
             let list_item = Item::list(items);
             let _res = push_state.code_stack.replace(list_index, list_item);
